@@ -10,6 +10,7 @@ are compared with the extracted brute force over all faces (1e-9); OrientedBound
 random point clouds are checked to contain their points by the extracted predicates."""
 import os, sys, math, shutil
 from vlib import *
+import C36_io
 
 PROPS = ['Props/Properties_C36.v']
 EXTRACT = """From Coq Require Import Extraction ExtrOcamlBasic.
@@ -226,5 +227,6 @@ def run(ctx):
                    {'failing_input': WIT, 'witness_output': ' '.join(wl[0]) if wl else '', 'random_cases_with_wrong_flag': len(inside_wrong)})
     ctx.assumptions += ['theorems over the reals; the float runs use the tolerance 1e-9 (checker slack 1e-9 on box/sphere containment; OrientedBoundingBox pads its extent by max(1e-5 size, 1e-10))',
                         'the search theorem is about an abstract tree with exact comparisons; the implementation breaks ties within 100 eps by the angle to the face normal (mirrored in the brute-force model only for the choice of the face, hence of the inside flag)',
-                        'not decided: PolygonalMesh file I/O round trips, minimality of bounding spheres/boxes, smooth (interpolated-normal) meshes, non-mesh shapes']
+                        'not decided: minimality of bounding spheres/boxes, smooth (interpolated-normal) meshes, non-mesh shapes']
+    C36_io.part(ctx, gen_mesh)          # file formats: PolygonalMesh loaders vs the extracted readers
     ctx.finish()
